@@ -345,6 +345,12 @@ impl Field {
             )));
         }
 
+        // The `http` parsers check byte sets only; refuse what is outside the grammar of the
+        // component (RFC 3986 sections 3.1, 3.2, 3.3 / 3.4) before delegating to them.
+        if !pseudo_value_syntax(name, value.as_ref()) {
+            return Err(HeaderError::invalid_value(name, value));
+        }
+
         Ok(match name {
             b":scheme" => Field::Scheme(try_value(name, value)?),
             //= https://www.rfc-editor.org/rfc/rfc9114#section-4.3.1
@@ -363,6 +369,37 @@ impl Field {
             b":protocol" => Field::Protocol(try_value(name, value)?),
             _ => return Err(HeaderError::invalid_name(name)),
         })
+    }
+}
+
+/// Necessary conditions on the values of `:scheme`, `:authority` and `:path` that
+/// `http`'s `Scheme`, `Authority` and `PathAndQuery` parsers do not check.
+fn pseudo_value_syntax(name: &[u8], value: &[u8]) -> bool {
+    match name {
+        // scheme = ALPHA *( ALPHA / DIGIT / "+" / "-" / "." ); `Scheme` also accepts "~"
+        b":scheme" => {
+            value.first().is_some_and(|b| b.is_ascii_alphabetic())
+                && value
+                    .iter()
+                    .all(|b| b.is_ascii_alphanumeric() || matches!(b, b'+' | b'-' | b'.'))
+        }
+        // authority = [ userinfo "@" ] host [ ":" port ]: at most one "@"; unless the host is an
+        // IP literal, what follows its first ":" is the port, digits only
+        b":authority" => {
+            if value.iter().filter(|b| **b == b'@').count() > 1 {
+                return false;
+            }
+            let host_port = value.rsplit(|b| *b == b'@').next().unwrap_or(value);
+            host_port.first() == Some(&b'[')
+                || host_port
+                    .iter()
+                    .skip_while(|b| **b != b':')
+                    .skip(1)
+                    .all(|b| b.is_ascii_digit())
+        }
+        // "#" starts the fragment, which is not part of a request target; `PathAndQuery` drops it
+        b":path" => !value.contains(&b'#'),
+        _ => true,
     }
 }
 
